@@ -85,7 +85,10 @@ def strategy_(draw, thorough):
             step["pick"] = draw(st.lists(st.integers(0, 9), min_size=0, max_size=4))
             step["sort_pnames"] = draw(st.booleans())
         steps.append(step)
-    return {"frame": fr0, "opts": opts, "partition_on": pn, "steps": steps}
+    # how the caller reaches the dataset: by its directory (the library picks a file system), by the path of the summary
+    # file itself (what dask hands over), or through its own open/mkdirs functions
+    return {"frame": fr0, "opts": opts, "partition_on": pn, "steps": steps,
+            "open_mode": draw(st.sampled_from(["dir", "dir", "metadata_path", "callables"]))}
 
 
 def strategy(tier):
@@ -140,12 +143,29 @@ def run_case(case):
             return discard("create_roundtrip_differs(C01/C08):" + r[0], labels)
         pf = None
         mutating = []
+        om = case.get("open_mode", "dir")
+        labels.append("open:" + om)
+        iokw = {}
+        if om == "callables":
+            def _ow(p_, mode="rb"):
+                return open(p_, mode)
+
+            def _mk(p_):
+                os.makedirs(p_, exist_ok=True)
+            iokw = {"open_with": _ow, "mkdirs": _mk}
+
+        def _handle():
+            if om == "metadata_path":
+                return fastparquet.ParquetFile(os.path.join(path, "_metadata"))
+            if om == "callables":
+                return fastparquet.ParquetFile(path, open_with=iokw["open_with"])
+            return fastparquet.ParquetFile(path)
         for si, step in enumerate(case["steps"]):
             op = step["op"]
             labels.append("op:" + op)
             try:
                 if pf is None or not step.get("reuse_handle"):
-                    pf = fastparquet.ParquetFile(path)
+                    pf = _handle()
                 if pn and not pf.row_groups and op != "remove":
                     # partition columns are known from the directory names of the row groups: an
                     # emptied dataset has none, and the library refuses partitioned writes to it
@@ -160,11 +180,11 @@ def run_case(case):
                         kw = {"append": True, "file_scheme": "hive", "row_group_offsets": step["rgo"]}
                         if pn:
                             kw["partition_on"] = pn
-                        fastparquet.write(path, dfk, **kw)
+                        fastparquet.write(path, dfk, **kw, **iokw)
                         pf = None
                     elif op == "overwrite":
                         fastparquet.write(path, dfk, append="overwrite", file_scheme="hive", partition_on=pn,
-                                          row_group_offsets=step["rgo"])
+                                          row_group_offsets=step["rgo"], **iokw)
                         pf = None
                         newkeys = {key for _, key, _ in new}
                         for rid in [r_ for r_, (k_, _) in model.rows.items() if k_ in newkeys]:
@@ -176,7 +196,7 @@ def run_case(case):
                             # (row groups are no longer in write order within a partition: the order check stops here)
                             model.ordered = False
                             labels.append("row_groups_reordered_by_sort_key")
-                        pf.write_row_groups(dfk, row_group_offsets=step["rgo"], sort_key=sk, sort_pnames=bool(step.get("sort_pnames")))
+                        pf.write_row_groups(dfk, row_group_offsets=step["rgo"], sort_key=sk, sort_pnames=bool(step.get("sort_pnames")), **iokw)
                     for rid, key, cells in new:
                         model.rows[rid] = (key, cells)
                     if new:
@@ -188,7 +208,8 @@ def run_case(case):
                     for i in picks:
                         gone += [int(x) for x in pf[i].to_pandas(columns=["_rid"])["_rid"].tolist()]
                     rgs = [pf.row_groups[i] for i in picks]
-                    pf.remove_row_groups(rgs, sort_pnames=bool(step.get("sort_pnames")))
+                    pf.remove_row_groups(rgs, sort_pnames=bool(step.get("sort_pnames")),
+                                         **({"open_with": iokw["open_with"]} if iokw else {}))
                     for rid in gone:
                         if rid not in model.rows:
                             return viol("model_mismatch_on_remove", "row group to remove held row id %d unknown to the model" % rid, labels=labels)
